@@ -227,6 +227,7 @@ Inductive reach (g : cfg) : list Z -> caps -> Prop :=
 | R_cursor : forall latest c, reach g latest c -> reach g latest (on_set_cursor c)
 | R_newfb : forall latest c, reach g latest c -> reach g latest (on_newfb c)
 | R_scale : forall latest c, reach g latest c -> reach g latest (fst (on_setscale c))
+| R_sdsfail : forall latest c, reach g latest c -> reach g latest (on_sds_fail c)
 | R_update : forall latest c sn, reach g latest c -> reach g latest (fst (model_update g c sn)).
 
 (* transitions other than SetEncodings never switch a capability on and never touch pref/named *)
@@ -271,7 +272,7 @@ Lemma render_no_gain : forall g c1 s sn pl, no_gain c1 (fst (render_update g c1 
 Proof.
   intros g c1 s sn pl. unfold render_update.
   destruct (announce_sel g (c_pref c1) (c_lastrect c1) (sn_cmw sn) (sn_cmh sn) (sn_maxrects sn) (pl_region pl)
-                     (Z.of_nat (length (pl_copy pl))) (n_pseudo s)) as [[[n region'] lm]|];
+                     (map to_xywh (pl_copy pl)) (n_pseudo s)) as [[[[n region'] lm] keep]|];
     [|apply no_gain_refl].
   destruct (region_hdrs (c_pref c1) (emit_region (c_pref c1) (c_lastrect c1) (sn_cmw sn) (sn_cmh sn) region'));
     cbn [fst]; destruct (s_shape s), (s_pos s); unfold no_gain; cbn; repeat split; auto.
@@ -318,6 +319,7 @@ Proof.
     destruct (c_newfbsize c); [|apply no_gain_refl]. unfold no_gain; cbn; repeat split; auto.
   - destruct IHreach as [Hp Hf]. apply (no_gain_keeps latest c); auto. unfold on_setscale.
     destruct (c_newfbsize c); unfold no_gain; cbn; repeat split; auto.
+  - destruct IHreach as [Hp Hf]. apply (no_gain_keeps latest c); auto. unfold no_gain, on_sds_fail; cbn; repeat split; auto.
   - destruct IHreach as [Hp Hf]. apply (no_gain_keeps latest c); auto. apply model_update_no_gain.
 Qed.
 
@@ -401,7 +403,7 @@ Proof.
   assert (Hn1 : c_named c1 = c_named c) by (destruct D as (_ & N & _); exact N).
   unfold render_update in Hm.
   destruct (announce_sel g (c_pref c1) (c_lastrect c1) (sn_cmw sn) (sn_cmh sn) (sn_maxrects sn) (pl_region pl)
-                     (Z.of_nat (length (pl_copy pl))) (n_pseudo s)) as [[[n0 region'] lm0]|] eqn:Ea;
+                     (map to_xywh (pl_copy pl)) (n_pseudo s)) as [[[[n0 region'] lm0] keep0]|] eqn:Ea;
     [|inversion Hm].
   destruct (region_hdrs (c_pref c1) (emit_region (c_pref c1) (c_lastrect c1) (sn_cmw sn) (sn_cmh sn) region'))
     as [rh|] eqn:Erh; [|inversion Hm].
@@ -453,6 +455,7 @@ Proof.
         right; right; right; right; right; split; [auto 10|]. apply H11.
         destruct (c_led c && g_ledhook g); cbn in Ss; exact Ss. }
   - (* copy rectangles exist only if the client's copyRegion was not empty *)
+    destruct keep0; [|constructor].
     apply Forall_forall. intros p Hin. apply in_map_iff in Hin. destruct Hin as (h & <- & Hin).
     unfold copy_hdrs in Hin. apply in_map_iff in Hin. destruct Hin as (r & <- & Hin).
     cbn [phdr_justified]. destruct (to_xywh r) as [[[x y] w] h0]. cbn [hdr_enc].
